@@ -182,8 +182,15 @@ def deliver(stream, seg, app_kind, server_kwargs, full_log=False, extra_tapes=No
     o.log_head = []
     o.log_full = None
     o.nseg = 0
-    old_handler = signal.signal(signal.SIGALRM, _on_alarm)
-    signal.setitimer(signal.ITIMER_REAL, WALL_CAP + len(stream) * 2e-4, 3.0)
+    # Safety net only: it never fires in a run that yields to the loop (those are bounded by
+    # max_iters); it turns "request bytes make the server spin forever inside one callback"
+    # into a reported violation instead of a watchdog kill of the whole worker.
+    try:
+        old_handler = signal.signal(signal.SIGALRM, _on_alarm)
+    except ValueError:  # not the main thread: run without the net
+        old_handler = None
+    if old_handler is not None or signal.getsignal(signal.SIGALRM) is _on_alarm:
+        signal.setitimer(signal.ITIMER_REAL, WALL_CAP + len(stream) * 2e-4, 3.0)
     try:
         _deliver_inner(o, state, stream, cuts, gaps, cap, tapes, app_kind, kw, full_log)
     except _WallWatchdog:
@@ -191,8 +198,10 @@ def deliver(stream, seg, app_kind, server_kwargs, full_log=False, extra_tapes=No
         rapp = state.get("rapp")
         o.recs = rapp.records if rapp is not None else []
     finally:
-        signal.setitimer(signal.ITIMER_REAL, 0)
-        signal.signal(signal.SIGALRM, old_handler)
+        if signal.getsignal(signal.SIGALRM) is _on_alarm:
+            signal.setitimer(signal.ITIMER_REAL, 0)
+            signal.signal(signal.SIGALRM, old_handler if old_handler is not None
+                          else signal.SIG_DFL)
     _digest_recs(o)
     return o
 
